@@ -54,6 +54,14 @@ func (c Config) Options() *opt.Options {
 		o.WriteBuffer = 64
 		o.CompactionL0Trigger = 4
 		o.CompactionTableSize = 1 << 20
+	case "mixed":
+		// several entries per buffer/table, outputs split into several tables, deep cascade
+		o = flushy()
+		o.WriteBuffer = 48
+		o.CompactionL0Trigger = 1
+		o.CompactionTotalSize = 60
+		o.CompactionTotalSizeMultiplier = 2
+		o.DisableLargeBatchTransaction = true
 	case "rot":
 		o = flushy()
 		o.MaxManifestFileSize = 1
